@@ -11,7 +11,9 @@ RULE = ("random <root>/etc/env.d settings (CONFIG_PROTECT split over two files, 
         "globs and directory entries, with and without a SPACE_SEPARATED declaration; trailing/double slashes), "
         "extra_protects/extra_disables arguments, config files that are absent / identical / edited (different and same "
         "size) / as recorded, pending ._cfgNNNN_ updates (identical to the incoming file or not, gaps, 0041, 9997, "
-        "malformed and foreign names), occasional non-file replacements; install, replace and uninstall engines "
+        "malformed and foreign names), occasional non-file replacements; 0/1/2/3 distinct mask entries with edited "
+        "neighbours whose names only extend a masked directory's name (app.conf, appdata/x, app-extra/x next to a "
+        "masked app/); install, replace and uninstall engines "
         "(ConfigProtectInstall(+_restore), ConfigProtectUninstall, merge, unmerge, BaseSystemUnmergeProtection) with "
         "offset '/' inside a chroot and with a nested offset. Judged per file by the filesystem outcome and "
         "get_merged_cset(). Non-trivial = an existing regular file that the model says is protected and whose content "
@@ -31,7 +33,9 @@ TIMEOUT = {"quick": 240, "thorough": 1800}
 MIN_EVALS = 600
 REQUIRED_COUNTERS = ("runs:install:chroot", "runs:replace:chroot", "runs:uninstall:chroot", "install:protected-differs",
                      "install:conform", "uninstall:protected-modified", "install:with-identical-pending",
-                     "install:with-pending")
+                     "install:with-pending", "install:mask-name-extension:2-masks",
+                     "install:mask-name-extension:3+-masks", "uninstall:mask-name-extension:2-masks",
+                     "uninstall:mask-name-extension:3+-masks", "install:mask-name-extension:1-mask")
 
 K_OFFSET = "filter-ignores-offset"
 K_ENVD_STR = "collision-ignore-envd-string"
@@ -97,6 +101,7 @@ def judge(ctx, plan, tag="run"):
     live_dirs = {p for p, e in before.items() if e["type"] == "dir"}
     new, old = plan.get("new") or {}, plan.get("old") or {}
     findings = {}  # rule -> [file detail]
+    conform = {"install": 0, "uninstall": 0}
 
     def flag(rule, detail):
         findings.setdefault(rule, []).append(detail)
@@ -130,6 +135,8 @@ def judge(ctx, plan, tag="run"):
             ctx.count("install:unprotected-differs:" + ("overwritten" if a and a.get("sha") == isha else "kept"))
             continue
         ctx.count("install:protected-differs")
+        if _mask_sibling("/" + rel, cfg):
+            ctx.count("install:mask-name-extension:%s" % _nmask_class(cfg))
         pend = model.pending_updates(before, rel)
         if pend:
             ctx.count("install:with-pending")
@@ -141,6 +148,7 @@ def judge(ctx, plan, tag="run"):
                                    cur["size"] == len(ent["d"].encode())]))
         if not problems:
             ctx.count("install:conform")
+            conform["install"] += 1
             if ctx.want_sample():
                 ctx.sample({"file": "/" + rel, "style": style, "pending_before": info["pending_before"],
                             "identical_pending": info["identical_pending"], "created": info["created"],
@@ -175,6 +183,8 @@ def judge(ctx, plan, tag="run"):
                 ctx.count("uninstall:unprotected-modified")
                 continue
             ctx.count("uninstall:protected-modified")
+            if _mask_sibling("/" + rel, cfg):
+                ctx.count("uninstall:mask-name-extension:%s" % _nmask_class(cfg))
             ctx.evaluated()
             ctx.nontrivial(json.dumps([mode, style, "out", cur["size"] == len(ent["d"].encode())]))
             if model.ident(after.get(rel)) != model.ident(cur):
@@ -184,10 +194,12 @@ def judge(ctx, plan, tag="run"):
                                                          "still_in_remove_set_after_pre_unmerge": ("/" + rel) in pre})
             else:
                 ctx.count("uninstall:conform")
+                conform["uninstall"] += 1
     if not findings:
         ctx.count("scenarios_conform")
         return
     facts = {"style": style, "mode": mode, "suppressed": supp, "nonfile_over_existing_file": nonfile_over_file,
+             "protected_files_kept_in_same_run": conform,
              "ignore_in_envd": bool(cfg.get("ignore")), "ignore_declared_list": bool(cfg.get("ignore_declared_list")),
              "ignore_dir_entries": [p for p in cfg.get("ignore", ())
                                     if not p.endswith("/*") and p.strip("/") in live_dirs]}
@@ -196,6 +208,22 @@ def judge(ctx, plan, tag="run"):
         want = "ConfigProtectUninstall" if rule == "modified-protected-file-removed" else "ConfigProtectInstall"
         mine = [x for x in supp if x["trigger"].endswith(":" + want)]
         ctx.violation(rule, dict(facts, suppressed=mine, rule=rule, files=files[:40], nfiles=len(files), plan=plan))
+
+
+def _mask_sibling(path, cfg):
+    """coverage only: the path extends the *name* of a masked directory without lying under it."""
+    import posixpath
+
+    for m in cfg.get("mask", ()):
+        m = posixpath.normpath(m).rstrip("/")
+        if path.startswith(m) and not path.startswith(m + "/"):
+            return True
+    return False
+
+
+def _nmask_class(cfg):
+    n = len(set(cfg.get("mask", ())))
+    return "1-mask" if n <= 1 else ("2-masks" if n == 2 else "3+-masks")
 
 
 def _unanchored_hit(path, patterns):
@@ -244,18 +272,23 @@ def classify(w):
                 and exc.endswith("'chksums')") and "simple_chksum_compare" in frames and w.get("nonfile_over_existing_file"):
             return K_NONFILE
         return None
+    kept = w.get("protected_files_kept_in_same_run") or {}
     if w.get("style") == "nested":
-        # wrong model: the CONFIG_PROTECT filter is matched against the offset-prefixed location => nothing is protected
-        if rule == "protected-file-overwritten" and all(not f.get("created") for f in files):
+        # wrong model: the CONFIG_PROTECT filter is matched against the offset-prefixed location => *nothing* is
+        # protected in the whole run (a run that kept some protected file has a different problem)
+        if rule == "protected-file-overwritten" and all(not f.get("created") for f in files) \
+                and kept.get("install") == 0:
             return K_OFFSET
-        if rule == "modified-protected-file-removed":
+        if rule == "modified-protected-file-removed" and kept.get("uninstall") == 0:
             return K_OFFSET
         return None
     if rule == "modified-protected-file-removed" and w.get("mode") in ("uninstall", "replace"):
         # wrong model: "recorded" checksums are taken from the file on disk => never differs => always removed
         # (evidence: the trigger itself left the file in the remove set; a file it dropped and that is removed
         # anyway is a different mechanism)
-        if all(f.get("after") is None and f.get("still_in_remove_set_after_pre_unmerge") for f in files):
+        # and no modified protected file survived in the same run (the wrong model removes all of them)
+        if kept.get("uninstall") == 0 and all(
+                f.get("after") is None and f.get("still_in_remove_set_after_pre_unmerge") for f in files):
             return K_SELFCMP
         return None
     if rule == "protected-file-overwritten" and w.get("ignore_declared_list"):
@@ -277,6 +310,9 @@ def replay(ctx, w):
     judge(ctx, w.get("plan", w), tag="replay")
 
 
+NMASK = [2, 3, None, 2, 1, 3, None, 0]  # 8 is coprime to the 11 combos: every (mode, style) meets every count
+
+
 def run(ctx):
     W, scen, _ = _mods()
     try:
@@ -288,7 +324,7 @@ def run(ctx):
                   ("uninstall", "nested", None), ("replace", "chroot", False)]
         for i in range(n):
             mode, style, clean = combos[(i + ctx.shard) % len(combos)]
-            judge(ctx, g.plan(mode, style, clean))
+            judge(ctx, g.plan(mode, style, clean, NMASK[i % len(NMASK)]))
             if ctx.out_of_time(20):
                 ctx.note("stopped early by the soft deadline after %d scenarios" % (i + 1))
                 break
